@@ -3,7 +3,7 @@ Proof: XcpProps/C02.lean.  Correspondence (A): random trees (weird names, links 
 destination state, spellings, -T, --target-directory, --glob, both drivers: whole-sandbox snapshot of the real run vs
 the Lean model's `L1run`; the property's own oracle (cp's mapping rule computed independently here) on the real run."""
 import fnmatch, os
-from .. import core, treerun, treegen
+from .. import core, scen, treerun, treegen
 
 
 def isutf(b):
@@ -128,7 +128,38 @@ def corpus(driver):
         sc.opts = ['r']; sc.paths = [ops[k] for k in order] + [b'lib/README', b'DEST']
         sc.meta = dict(srcs=[b'/W/' + ops[k] for k in order] + [b'/W/lib/README'], dest=b'/W/DEST', destk='dir-empty', single_file=False); sc.tag = 'aliased-operands'
         out.append(sc)
+    # -T (no target directory) WITHOUT -r, a non-directory source onto an existing directory: the mapping is `dest itself`, which
+    # cannot be made a file: the run fails (it must not quietly fall back to dest/basename)
+    for kind in ('file', 'link'):
+        sc = treerun.Scn(); sc.driver = driver
+        sc.d(b'/W').f(b'/W/f').l(b'/W/lf', b'f').d(b'/W/DEST').f(b'/W/DEST/keep')
+        sc.opts = ['T']; sc.paths = [b'f' if kind == 'file' else b'lf', b'DEST']; sc.meta = dict(srcs=[b'/W/f' if kind == 'file' else b'/W/lf'], dest=b'/W/DEST', destk='dir-populated', single_file=True); sc.tag = 'T-nondir-onto-dir'
+        out.append(sc)
     return out
+
+
+def mount_inside_source(ctx, base):
+    """another file system mounted below the source root (a tmpfs at S/mnt): its entries are entries of the tree like any other"""
+    import subprocess
+    for driver in ('parfile', 'parblock'):
+        d = base + '/MNT'
+        subprocess.run(['umount', d + '/S/mnt'], capture_output=True); subprocess.run(['rm', '-rf', d]); os.makedirs(d + '/S/mnt'); os.makedirs(d + '/S/plain')
+        open(d + '/S/a', 'w').write('a'); open(d + '/S/plain/p', 'w').write('p')
+        if subprocess.run(['mount', '-t', 'tmpfs', '-o', 'size=4m', 'tmpfs', d + '/S/mnt'], capture_output=True).returncode != 0:
+            ctx.count('mount_inside_source.skipped'); ctx.assumptions.append('no tmpfs mount available: a mount point inside the source not exercised')
+            return
+        try:
+            os.makedirs(d + '/S/mnt/sub'); open(d + '/S/mnt/inside', 'w').write('inside'); open(d + '/S/mnt/sub/deep', 'w').write('deep')
+            r = scen.run_xcp(d, ['-r', '--driver', driver, 'S', 'D'], timeout=60)
+            want = {'a': 'a', 'plain/p': 'p', 'mnt/inside': 'inside', 'mnt/sub/deep': 'deep'}
+            missing = [k for k, v in want.items() if not os.path.isfile(f'{d}/D/{k}') or open(f'{d}/D/{k}').read() != v]
+            ctx.count(f'mount_inside_source.exit.{r.cls}'); ctx.case(('mount-inside-source', driver), True)
+            if r.cls == '0' and missing:
+                ctx.violation(f'mount-inside-source-{driver}.json', dict(driver=driver, missing=missing, stderr=r.stderr[-300:]),
+                              f'C02: a file system mounted inside the source tree: exit 0 but {missing} are not mirrored ({driver})')
+        finally:
+            subprocess.run(['umount', d + '/S/mnt'], capture_output=True)
+    subprocess.run(['rm', '-rf', base + '/MNT'])
 
 
 def run(ctx):
@@ -185,6 +216,7 @@ def run(ctx):
                 msg, known = oracle(sc, o)
                 if msg and not (known and ctx.open_finding(known)):
                     ctx.violation(f'case-{i}-onecpu.json', dict(argv=[repr(x) for x in o.argv], cpus=[0], oracle=msg), f'C02: --workers 0 with one available CPU ({sc.driver}): exit 0 but {msg}')
+        mount_inside_source(ctx, base)
         ans = core.ask(core.MODEL, [o.request for _, _, o in runs])
     for (i, sc, o), a in zip(runs, ans):
         tag = getattr(sc, 'tag', 'gen')
